@@ -325,8 +325,10 @@ func (s *Sched) enabledList(from *G) []*G {
 		}
 	}
 	if len(out) == 0 {
-		for _, g := range s.gs {
-			if !g.done && g.pend != nil && g.pend.kind == opQuiesce {
+		// nested waits for quiescence return innermost first: a goroutine which asked later (a harness
+		// hook inside the code under test) resumes before the harness's main goroutine
+		for i := len(s.gs) - 1; i >= 0; i-- {
+			if g := s.gs[i]; !g.done && g.pend != nil && g.pend.kind == opQuiesce {
 				out = append(out, g)
 			}
 		}
